@@ -562,6 +562,176 @@ func c19Registry(c *Ctx, r *Result) {
 // c19Wrap: the function invoking ECALFunction.Run wraps errors that are not runtime errors.
 func c19Wrap(c *Ctx, r *Result) {
 	fnIface := c.Interface("util", "ECALFunction")
+	// convertsAfter: after the call `run` in fn (the invocation of ECALFunction.Run, or of a helper
+	// that hands its error through unchanged) a foreign error is converted — in fn itself, in a
+	// conversion helper, or, when fn only passes the error on to its callers, in every caller.
+	var convertsAfter func(fn *ssa.Function, run ssa.Instruction, depth int) bool
+	convertsAfter = func(fn *ssa.Function, run ssa.Instruction, depth int) bool {
+		// a NewRuntimeError call dominated by err != nil and by failed assertions to the runtime error types
+		ok := false
+		for _, w := range callSites(fn, func(name string, _ ssa.CallInstruction) bool {
+			return strings.HasSuffix(name, "ECALRuntimeProvider.NewRuntimeError")
+		}) {
+			if !dominates(run, w) {
+				continue
+			}
+			f := FactsAt(w)
+			failedAsserts := 0
+			for v := range f.FalseV {
+				if e, isE := v.(*ssa.Extract); isE && e.Index == 1 {
+					if ta, isTA := e.Tuple.(*ssa.TypeAssert); isTA && ta.CommaOk {
+						ts := types.TypeString(ta.AssertedType, nil)
+						if strings.Contains(ts, "RuntimeError") {
+							failedAsserts++
+						}
+					}
+				}
+			}
+			nonNil := false
+			for p := range f.NonNil {
+				if strings.Contains(p, "err") || strings.Contains(p, "#1") {
+					nonNil = true
+				}
+			}
+			if failedAsserts >= 2 && nonNil {
+				ok = true
+			}
+		}
+		// the conversion in a helper: Run's error is handed to a module function that returns
+		// it unchanged or, where it is non-nil and failed both type tests, the NewRuntimeError
+		if !ok {
+			wrapsCond := func(g *ssa.Function) bool {
+				for _, w := range callSites(g, func(name string, _ ssa.CallInstruction) bool {
+					return strings.HasSuffix(name, "ECALRuntimeProvider.NewRuntimeError")
+				}) {
+					f := FactsAt(w)
+					failedAsserts := 0
+					for v := range f.FalseV {
+						if e, isE := v.(*ssa.Extract); isE && e.Index == 1 {
+							if ta, isTA := e.Tuple.(*ssa.TypeAssert); isTA && ta.CommaOk && strings.Contains(types.TypeString(ta.AssertedType, nil), "RuntimeError") {
+								if _, isPrm := ta.X.(*ssa.Parameter); isPrm {
+									failedAsserts++
+								}
+							}
+						}
+					}
+					nonNil := false
+					for _, prm := range g.Params {
+						if f.NonNil[prm.Name()] && prm.Type().String() == "error" {
+							nonNil = true
+						}
+					}
+					if failedAsserts < 2 || !nonNil {
+						continue
+					}
+					// the wrapped error is what the helper returns on that path
+					wv, _ := w.(ssa.Value)
+					for _, rv := range returnedValues(g, g.Signature.Results().Len()-1) {
+						x := rv
+						for d := 0; d < 4 && x != nil; d++ {
+							if x == wv {
+								return true
+							}
+							switch y := x.(type) {
+							case *ssa.MakeInterface:
+								x = y.X
+							case *ssa.ChangeInterface:
+								x = y.X
+							case *ssa.TypeAssert:
+								x = y.X
+							default:
+								x = nil
+							}
+						}
+					}
+				}
+				return false
+			}
+			var runErr ssa.Value
+			if rv, isVal := run.(ssa.Value); isVal {
+				for _, ref := range *rv.Referrers() {
+					if e, isE := ref.(*ssa.Extract); isE && e.Index == 1 {
+						runErr = e
+					}
+				}
+			}
+			var flowsFromRun func(v ssa.Value, d int) bool
+			flowsFromRun = func(v ssa.Value, d int) bool {
+				if v == runErr && v != nil {
+					return true
+				}
+				if d > 3 {
+					return false
+				}
+				switch x := unspill(v).(type) {
+				case *ssa.Phi:
+					for _, e := range x.Edges {
+						if flowsFromRun(e, d+1) {
+							return true
+						}
+					}
+				case *ssa.Extract:
+					return ssa.Value(x) == runErr
+				}
+				return false
+			}
+			allInstrs(fn, func(in ssa.Instruction) {
+				call, isCall := in.(*ssa.Call)
+				if !isCall || !dominates(run, in) {
+					return
+				}
+				g := call.Call.StaticCallee()
+				if g == nil || !c.inModule(g) || g.Signature.Results().Len() == 0 || g.Signature.Results().At(g.Signature.Results().Len()-1).Type().String() != "error" {
+					return
+				}
+				for _, a := range call.Call.Args {
+					if a.Type().String() == "error" && flowsFromRun(a, 0) && wrapsCond(g) {
+						ok = true
+					}
+				}
+			})
+		}
+		if ok || depth > 1 {
+			return ok
+		}
+		// pass-through: fn returns the error of `run` unchanged; the obligation is its callers'
+		var runErr ssa.Value
+		if rv, isVal := run.(ssa.Value); isVal {
+			for _, ref := range *rv.Referrers() {
+				if e, isE := ref.(*ssa.Extract); isE && e.Index == 1 {
+					runErr = e
+				}
+			}
+		}
+		nres := fn.Signature.Results().Len()
+		if runErr == nil || nres == 0 || fn.Signature.Results().At(nres-1).Type().String() != "error" || fn.Parent() != nil {
+			return false
+		}
+		for _, rv := range returnedValues(fn, nres-1) {
+			if unspill(rv) != runErr {
+				return false
+			}
+		}
+		node := c.CHA().Nodes[fn]
+		if node == nil {
+			return false
+		}
+		sites := 0
+		for _, e := range node.In {
+			if e.Site == nil || e.Site.Common().StaticCallee() != fn {
+				if e.Caller.Func.Synthetic != "" {
+					continue
+				}
+				return false
+			}
+			ci, isInstr := e.Site.(ssa.Instruction)
+			if !isInstr || !convertsAfter(e.Caller.Func, ci, depth+1) {
+				return false
+			}
+			sites++
+		}
+		return sites > 0
+	}
 	n := 0
 	for _, fn := range c.ModFuncs() {
 		if c.PkgOf(fn) != "interpreter" {
@@ -578,130 +748,7 @@ func c19Wrap(c *Ctx, r *Result) {
 			n++
 			site := fmt.Sprintf("%s#Run#%d", key, i)
 			pos := c.Pos(c.InstrPos(run))
-			// a NewRuntimeError call dominated by err != nil and by failed assertions to the runtime error types
-			ok := false
-			for _, w := range callSites(fn, func(name string, _ ssa.CallInstruction) bool {
-				return strings.HasSuffix(name, "ECALRuntimeProvider.NewRuntimeError")
-			}) {
-				if !dominates(run, w) {
-					continue
-				}
-				f := FactsAt(w)
-				failedAsserts := 0
-				for v := range f.FalseV {
-					if e, isE := v.(*ssa.Extract); isE && e.Index == 1 {
-						if ta, isTA := e.Tuple.(*ssa.TypeAssert); isTA && ta.CommaOk {
-							ts := types.TypeString(ta.AssertedType, nil)
-							if strings.Contains(ts, "RuntimeError") {
-								failedAsserts++
-							}
-						}
-					}
-				}
-				nonNil := false
-				for p := range f.NonNil {
-					if strings.Contains(p, "err") || strings.Contains(p, "#1") {
-						nonNil = true
-					}
-				}
-				if failedAsserts >= 2 && nonNil {
-					ok = true
-				}
-			}
-			// the conversion in a helper: Run's error is handed to a module function that returns
-			// it unchanged or, where it is non-nil and failed both type tests, the NewRuntimeError
-			if !ok {
-				wrapsCond := func(g *ssa.Function) bool {
-					for _, w := range callSites(g, func(name string, _ ssa.CallInstruction) bool {
-						return strings.HasSuffix(name, "ECALRuntimeProvider.NewRuntimeError")
-					}) {
-						f := FactsAt(w)
-						failedAsserts := 0
-						for v := range f.FalseV {
-							if e, isE := v.(*ssa.Extract); isE && e.Index == 1 {
-								if ta, isTA := e.Tuple.(*ssa.TypeAssert); isTA && ta.CommaOk && strings.Contains(types.TypeString(ta.AssertedType, nil), "RuntimeError") {
-									if _, isPrm := ta.X.(*ssa.Parameter); isPrm {
-										failedAsserts++
-									}
-								}
-							}
-						}
-						nonNil := false
-						for _, prm := range g.Params {
-							if f.NonNil[prm.Name()] && prm.Type().String() == "error" {
-								nonNil = true
-							}
-						}
-						if failedAsserts < 2 || !nonNil {
-							continue
-						}
-						// the wrapped error is what the helper returns on that path
-						wv, _ := w.(ssa.Value)
-						for _, rv := range returnedValues(g, g.Signature.Results().Len()-1) {
-							x := rv
-							for d := 0; d < 4 && x != nil; d++ {
-								if x == wv {
-									return true
-								}
-								switch y := x.(type) {
-								case *ssa.MakeInterface:
-									x = y.X
-								case *ssa.ChangeInterface:
-									x = y.X
-								case *ssa.TypeAssert:
-									x = y.X
-								default:
-									x = nil
-								}
-							}
-						}
-					}
-					return false
-				}
-				var runErr ssa.Value
-				if rv, isVal := run.(ssa.Value); isVal {
-					for _, ref := range *rv.Referrers() {
-						if e, isE := ref.(*ssa.Extract); isE && e.Index == 1 {
-							runErr = e
-						}
-					}
-				}
-				var flowsFromRun func(v ssa.Value, d int) bool
-				flowsFromRun = func(v ssa.Value, d int) bool {
-					if v == runErr && v != nil {
-						return true
-					}
-					if d > 3 {
-						return false
-					}
-					switch x := unspill(v).(type) {
-					case *ssa.Phi:
-						for _, e := range x.Edges {
-							if flowsFromRun(e, d+1) {
-								return true
-							}
-						}
-					case *ssa.Extract:
-						return ssa.Value(x) == runErr
-					}
-					return false
-				}
-				allInstrs(fn, func(in ssa.Instruction) {
-					call, isCall := in.(*ssa.Call)
-					if !isCall || !dominates(run, in) {
-						return
-					}
-					g := call.Call.StaticCallee()
-					if g == nil || !c.inModule(g) || g.Signature.Results().Len() == 0 || g.Signature.Results().At(g.Signature.Results().Len()-1).Type().String() != "error" {
-						return
-					}
-					for _, a := range call.Call.Args {
-						if a.Type().String() == "error" && flowsFromRun(a, 0) && wrapsCond(g) {
-							ok = true
-						}
-					}
-				})
-			}
+			ok := convertsAfter(fn, run, 0)
 			if ok {
 				r.Instance("R19c-wrap", site, pos, "ok", "an error that is neither *RuntimeError nor *RuntimeErrorWithDetail is replaced by NewRuntimeError", true)
 			} else {
